@@ -86,9 +86,10 @@ impl<E: FieldElement<BaseField = Felt>> AuxColumnBuilder<E> for BusColumnBuilder
         let op_code = op_code_felt.as_int() as u8;
 
         match op_code {
-            JOIN | SPLIT | LOOP | DYN | CALL => {
+            JOIN | SPLIT | LOOP | CALL => {
                 build_control_block_request(main_trace, op_code_felt, alphas, row)
             }
+            DYN => build_dyn_block_request(main_trace, op_code_felt, alphas, row),
             SYSCALL => build_syscall_block_request(main_trace, op_code_felt, alphas, row),
             SPAN => build_span_block_request(main_trace, alphas, row),
             RESPAN => build_respan_block_request(main_trace, alphas, row),
@@ -280,6 +281,26 @@ fn build_control_block_request<E: FieldElement<BaseField = Felt>>(
     let state = main_trace.decoder_hasher_state(row);
 
     header + build_value(&alphas[8..16], &state) + alphas[5].mul_base(op_code_felt)
+}
+
+/// Builds requests made to the hasher chiplet at the start of a dyn block: the hash of a dyn block
+/// is computed from an all-zero state (the hasher registers of the DYN row hold the hash of the
+/// block which is executed dynamically, not an input of the hash computation).
+fn build_dyn_block_request<E: FieldElement<BaseField = Felt>>(
+    main_trace: &MainTrace,
+    op_code_felt: Felt,
+    alphas: &[E],
+    row: usize,
+) -> E {
+    let op_label = LINEAR_HASH_LABEL;
+    let addr_nxt = main_trace.addr(row + 1);
+    let first_cycle_row = addr_to_row_index(addr_nxt) % HASH_CYCLE_LEN == 0;
+    let transition_label = if first_cycle_row { op_label + 16 } else { op_label + 32 };
+
+    alphas[0]
+        + alphas[1].mul_base(Felt::from(transition_label))
+        + alphas[2].mul_base(addr_nxt)
+        + alphas[5].mul_base(op_code_felt)
 }
 
 /// Builds requests made to kernel ROM chiplet when initializing a syscall block.
